@@ -86,15 +86,20 @@ type Lemma struct {
 	Line     int
 }
 
+type Ghost struct {
+	Pkg, Name, Type string
+}
+
 type ContractSet struct {
 	Funcs     map[string]*Contract // key: pkg.Name
 	SpecFuncs map[string]*SpecFunc // key: pkg.name and bare name
 	Lemmas    []*Lemma
 	Order     []string
+	Ghosts    map[string]*Ghost
 }
 
 func newContractSet() *ContractSet {
-	return &ContractSet{Funcs: map[string]*Contract{}, SpecFuncs: map[string]*SpecFunc{}}
+	return &ContractSet{Funcs: map[string]*Contract{}, SpecFuncs: map[string]*SpecFunc{}, Ghosts: map[string]*Ghost{}}
 }
 
 var (
@@ -177,6 +182,14 @@ func (cs *ContractSet) loadContractFile(path, defaultPkg string) error {
 		switch word {
 		case "package":
 			pkg = rest
+			continue
+		case "ghost":
+			finish()
+			f := strings.Fields(rest)
+			if len(f) != 3 || f[0] != "var" {
+				return fmt.Errorf("%s:%d: expected `ghost var name type`", path, ln)
+			}
+			cs.Ghosts[f[1]] = &Ghost{Pkg: pkg, Name: f[1], Type: f[2]}
 			continue
 		case "func":
 			finish()
@@ -321,7 +334,11 @@ func (cs *ContractSet) loadContractFile(path, defaultPkg string) error {
 			cur.HasAssigns = true
 			if rest != "nothing" {
 				for _, a := range splitTop(rest, ',') {
-					cur.Assigns = append(cur.Assigns, mk(a))
+					cl := mk(a)
+					if strings.HasPrefix(a, "ghost ") {
+						cl.X = &SX{K: "ghost", Op: strings.TrimSpace(a[6:])}
+					}
+					cur.Assigns = append(cur.Assigns, cl)
 				}
 			}
 			lastClause = nil
